@@ -153,6 +153,9 @@ static struct rb_tab rb_description(void)
       RegisterArea *a = &T.area[i];
       IN(uint32_t, in_abase) IN(uint32_t, in_asize) IN(uint16_t, in_aflags) IN(uint8_t, in_akind)
       IN(uint32_t, in_afirst) IN(uint32_t, in_alast) IN(uint32_t, in_acount) IN(_Bool, in_amem_atend)
+#ifdef RB_FIXED_ASIZE
+      in_asize = RB_SZ;
+#endif
       ASSUME(in_asize >= 1 && in_asize <= RB_SZ && RB_M64(in_abase) + in_asize <= 0xffffffffull);
       ASSUME(in_akind <= 7 && IMPLIES(in_akind & (RB_AK_WRITE | RB_AK_READ), in_akind & RB_AK_MEM));
       a->base = in_abase; a->size = in_asize; a->flags = in_aflags;
